@@ -7,6 +7,7 @@ import (
 
 	"github.com/form3tech-oss/f1/v2/internal/metrics"
 	"github.com/form3tech-oss/f1/v2/internal/progress"
+	"github.com/form3tech-oss/f1/v2/internal/verifhook"
 	"github.com/form3tech-oss/f1/v2/internal/xtime"
 	"github.com/form3tech-oss/f1/v2/pkg/f1/scenarios"
 	"github.com/form3tech-oss/f1/v2/pkg/f1/testing"
@@ -96,6 +97,7 @@ func (s *ActiveScenario) Run(state *iterationState) {
 	failed := state.t.Failed()
 	duration := xtime.NanoTime() - start
 
+	verifhook.Yield("scenario.run.beforeRecord")
 	s.m.RecordIterationResult(s.scenario.Name, metrics.Result(failed), duration)
 	s.progress.Record(metrics.Result(failed), duration)
 }
